@@ -1635,9 +1635,8 @@ def select__fold_left(self: XPathFunction, context: ta.ContextType = None) \
     if func.arity != 2:
         raise self.error('XPTY0004', "function arity must be 2")
 
-    zero = self.get_argument(context, index=1)
-
-    result = [] if zero is None else zero  # an empty $zero is the empty sequence, not None
+    zero = [x for x in self[1].select(copy(context))]  # $zero is item()*: any sequence is admitted
+    result = zero[0] if len(zero) == 1 else zero
     for item in self[0].select(context):
         result = func(result, item, context=context)
 
@@ -1660,9 +1659,8 @@ def select__fold_right(self: XPathFunction, context: ta.ContextType = None) \
     if func.arity != 2:
         raise self.error('XPTY0004', "function arity must be 2")
 
-    zero = self.get_argument(context, index=1)
-
-    result = [] if zero is None else zero  # an empty $zero is the empty sequence, not None
+    zero = [x for x in self[1].select(copy(context))]  # $zero is item()*: any sequence is admitted
+    result = zero[0] if len(zero) == 1 else zero
     sequence = [x for x in self[0].select(context)]
 
     for item in reversed(sequence):
